@@ -12,7 +12,7 @@ ID = "C12"
 LEVEL = "exploration"
 RULE = (
     "(A) single thread: every composition of the frame length as a short-write pattern for frames <= 12 bytes "
-    "(exhaustive), sampled patterns for frames up to 100 kB. (B) 2..4 sender threads on one connection under the "
+    "(exhaustive), sampled patterns for frames up to 100 kB, str payloads (ASCII, Latin-1, beyond) through send / send_frame / ping / pong with every opcode. (B) 2..4 sender threads on one connection under the "
     "deterministic scheduler, each sending 1..3 tagged messages (text/binary/ping, small and > 16 kB), short writes on, "
     "generated schedule choices plus up to 3 line-level preemptions (every single preemption point of fixed scenarios in "
     "thorough). (C) 2..4 receiver threads calling recv() on 3..8 messages (fragmented, pings interleaved) delivered in "
@@ -26,6 +26,7 @@ ORACLES = [
     "every server message is returned intact to exactly one receiving thread",
 ]
 ASSUMPTIONS = [
+    "str payloads on non-text opcodes (the documented fragmented-send example passes str to OPCODE_CONT frames) are only required to produce one whole frame or a refusal with nothing written; their encoding is not judged",
     "interleavings are explored at simulated blocking points and at line boundaries inside websocket/ (not inside C code)",
     "enable_multithread left at its default",
 ]
@@ -78,6 +79,51 @@ def run_partial(case):
     if op != rm.PING and ret != len(want):
         obs.fail("partial|return-value", f"returned {ret}, frame length {len(want)}")
     return _cls_partial(obs, case, payload, nwrites)
+
+
+def run_partial_str(case):
+    """A str payload through any opcode / entry point: whatever encoding the call picks, what it writes is one whole
+    frame of the requested opcode (or nothing, if it refuses the text) - the payload's encoding itself is not judged here."""
+    obs = Obs()
+    text, op, api = case["text"], case.get("op", 2), case.get("api", "send")
+    accept = case["accept"]
+    ws, fs = make_ws(accept=accept)
+    fs.budget = 200 + 8 * (len(text) + 20)
+    ws.set_mask_key(lambda n: b"\x5a\xa5\x3c\xc3")
+    from websocket import ABNF
+
+    raised, ret = None, None
+    try:
+        if api == "send_frame":
+            ret = ws.send_frame(ABNF.create_frame(text, op, case.get("fin", 1)))
+        elif api == "ping":
+            ws.ping(text)
+        elif api == "pong":
+            ws.pong(text)
+        else:
+            ret = ws.send(text, op)
+    except (UnicodeError, ValueError, TypeError) as e:
+        raised = e
+    except BaseException as e:  # noqa: BLE001
+        obs.fail(exc_bucket("partial-str|raised", e), f"{type(e).__name__}: {e}; text={text!r} op={op}")
+        return _cls_partial(obs, dict(case, dispatcher="str"), text.encode("utf-8"), 0)
+    wire = bytes(fs.sent)
+    fr, left = rm.decode_frames(wire)
+    want_op = {"ping": rm.PING, "pong": rm.PONG}.get(api, op)
+    if raised is not None:
+        if wire:
+            obs.fail("partial-str|refused-after-writing", f"{type(raised).__name__} after {len(wire)} bytes had been written; text={text!r} op={op} api={api}")
+    elif left or len(fr) != 1:
+        obs.fail("partial-str|wire-not-exactly-one-frame", f"{len(wire)} bytes decode to {len(fr)} frames + {len(left)} leftover bytes; text={text!r} op={op} api={api} accept={accept[:8]}")
+    else:
+        f = fr[0]
+        if f.opcode != want_op or not f.masked or f.rsv or not f.minimal or f.fin != (case.get("fin", 1) if api == "send_frame" else 1):
+            obs.fail("partial-str|frame-header", f"{f!r}; wanted opcode {want_op}")
+        if ret is not None and ret != len(wire):
+            obs.fail("partial-str|return-value", f"returned {ret}, {len(wire)} bytes written")
+        if (want_op == rm.TEXT or api in ("ping", "pong")) and f.payload != text.encode("utf-8"):
+            obs.fail("partial-str|text-not-utf8", f"payload {f.payload[:20]!r} for {text[:20]!r} (opcode {want_op})")
+    return _cls_partial(obs, dict(case, dispatcher="str:" + api), text.encode("utf-8"), len(fs.writes()))
 
 
 def _cls_partial(obs, case, payload, nwrites):
@@ -267,7 +313,7 @@ def _cls_threads(obs, case, sched):
 
 def run_case(case):
     if case["mode"] == "partial":
-        return run_partial(case)
+        return run_partial_str(case) if "text" in case else run_partial(case)
     return run_threads(case)
 
 
@@ -317,7 +363,24 @@ def thread_cases(draw):
 
 
 @st.composite
+def partial_str_cases(draw):
+    text = draw(st.one_of(st.text(max_size=40), st.text(alphabet="aé\xff€日😀 z", min_size=1, max_size=200), st.sampled_from(["café", "Zoé", "日本語", "\xff" * 130, "é" * 70000])))
+    api = draw(st.sampled_from(["send", "send", "send_frame", "send_frame", "ping", "pong"]))
+    if api in ("ping", "pong"):
+        text = text[:30]
+    c = {"mode": "partial", "text": text, "api": api, "op": draw(st.sampled_from([0, 1, 2, 2, 9, 10])) if api in ("send", "send_frame") else 9,
+         "accept": draw(st.lists(st.one_of(st.integers(1, 10), st.sampled_from([1, 2, 7, 100, 1460, 65536])), min_size=1, max_size=20))}
+    if c["op"] in (9, 10):
+        c["text"] = text[:30]
+    if api == "send_frame":
+        c["fin"] = draw(st.integers(0, 1)) if c["op"] in (0, 1, 2) else 1
+    return c
+
+
+@st.composite
 def partial_cases(draw):
+    if draw(st.integers(0, 3)) == 0:
+        return draw(partial_str_cases())
     n = draw(st.sampled_from([0, 1, 5, 126, 1000, 4096, 16384, 65536, 100000]))
     payload = {"rep": draw(st.binary(min_size=1, max_size=5)), "n": n}
     accept = draw(st.lists(st.one_of(st.integers(1, 10), st.sampled_from([1, 2, 100, 1460, 4096, 16384, 65536])), min_size=1, max_size=40))
